@@ -361,6 +361,16 @@ def run_history(job):
         for k in heap:
             if not same_obj(before_heap[k], heap[k]):
                 changed_objs[k] = {'before': canon_obj(before_heap[k]), 'after': canon_obj(heap[k])}
+        # the dictionary handed in as python_source is an input too: its keys and the objects they are bound to must be the caller's
+        if py_src is not None:
+            for k in c['sources']:
+                if k not in py_src:
+                    changed_objs[k] = {'before': canon_obj(before_heap[k]), 'after': {'kind': 'removed from python_source', 'json': ''}}
+                elif py_src[k] is not heap[k] and k not in changed_objs:
+                    changed_objs[k] = {'before': canon_obj(before_heap[k]), 'after': dict(canon_obj(py_src[k]), rebound=True)}
+            for k in py_src:
+                if k not in c['sources']:
+                    changed_objs[k] = {'before': {'kind': 'absent', 'json': ''}, 'after': canon_obj(py_src[k])}
         um = sys.modules.get('udfs')
         steps.append({'id': cid, 'result': out, 'changed_files': changed_files, 'changed_objs': changed_objs,
                       'udf_tag': getattr(um, 'TAG', None) if um is not None else None, 'logger': logger_state(),
